@@ -109,24 +109,8 @@ fn starve_case(rng: &mut Rng, seed: u64) -> Case {
     }
 }
 
-impl Property for C09 {
-    fn id(&self) -> &'static str {
-        "C09"
-    }
-    fn runs(&self, tier: Tier) -> u64 {
-        match tier {
-            Tier::Quick => 2000,
-            Tier::Thorough => 40000,
-        }
-    }
-    fn rule(&self) -> &'static str {
-        "random acyclic graphs of succeeding scripts built by 1-3 concurrent redo/redo-ifchange \
-         commands (-j1..8, log on/off, duplicate and aliased names; every eighth scenario with jobs that \
-         run for 70-200 simulated seconds, every eighth a token-starvation shape: waiters on one slow target's lock lose their tokens to minute-long jobs) under seeded random-walk, PCT and serial schedules with \
-         select-stall faults; non-trivial = at least one preemption and one \
-         script execution; distinct = distinct (scenario, preemption signature) pairs"
-    }
-    fn generate(&self, rng: &mut Rng, seed: u64, _tier: Tier, index: u64) -> Case {
+impl C09 {
+    fn generate_plain(&self, rng: &mut Rng, seed: u64, index: u64) -> Case {
         if index % 8 == 1 {
             return starve_case(rng, seed);
         }
@@ -213,6 +197,56 @@ impl Property for C09 {
             meta: BTreeMap::new(),
         }
     }
+}
+
+impl Property for C09 {
+    fn id(&self) -> &'static str {
+        "C09"
+    }
+    fn runs(&self, tier: Tier) -> u64 {
+        match tier {
+            Tier::Quick => 2000,
+            Tier::Thorough => 40000,
+        }
+    }
+    fn rule(&self) -> &'static str {
+        "random acyclic graphs of succeeding scripts built by 1-3 concurrent redo/redo-ifchange \
+         commands (-j1..8, log on/off, duplicate and aliased names; every eighth scenario with jobs that \
+         run for 70-200 simulated seconds, every eighth a token-starvation shape: waiters on one slow target's lock lose their tokens to minute-long jobs) under seeded random-walk, PCT and serial schedules with \
+         select-stall faults; non-trivial = at least one preemption and one \
+         script execution; distinct = distinct (scenario, preemption signature) pairs"
+    }
+    fn generate(&self, rng: &mut Rng, seed: u64, tier: Tier, index: u64) -> Case {
+        let mut c = self.generate_plain(rng, seed, index);
+        // every third scenario is also run once per sampled wake-up with that
+        // wake-up held back (see `wake_plans`)
+        if index % 3 == 0 {
+            let n = match tier {
+                Tier::Quick => 6,
+                Tier::Thorough => 12,
+            };
+            c.meta.insert("wake_plans".into(), serde_json::json!(n));
+        }
+        c
+    }
+    fn follow_ups(&self, case: &Case, first: &RunRecord) -> Vec<Case> {
+        if case.opts.stall_at.is_some() {
+            return Vec::new();
+        }
+        match case.meta.get("wake_plans").and_then(|v| v.as_u64()) {
+            Some(n) => wake_plans(case, first, n),
+            None => Vec::new(),
+        }
+    }
+    fn probes(&self, _case: &Case, rec: &RunRecord) -> BTreeMap<String, u64> {
+        let mut m = BTreeMap::new();
+        for g in &rec.groups {
+            if g.stall_fired.is_some() {
+                *m.entry("wakeup_held_back".to_string()).or_insert(0) += 1;
+            }
+        }
+        m
+    }
     fn check(&self, _case: &Case, rec: &RunRecord, _obs: &dyn Observer) -> Vec<Violation> {
         let mut v = liveness_violations(rec);
         for g in &rec.groups {
@@ -238,6 +272,40 @@ impl Property for C09 {
         }
         v
     }
+}
+
+/// Wake-up plans (DESIGN section 3.3): one follow-up run per chosen ready
+/// select/poll wake-up of a redo process in the first command group; in that
+/// run the process is held back at exactly that wake-up until nothing else can
+/// run, so that every child exit and token arrival that can coincide with it
+/// does.  `n` points, spread evenly over the wake-ups of the recorded run.
+pub fn wake_plans(case: &Case, first: &RunRecord, n: u64) -> Vec<Case> {
+    let g = match first.groups.first() {
+        Some(g) => g,
+        None => return Vec::new(),
+    };
+    let m = g.wake_count;
+    if m == 0 || n == 0 {
+        return Vec::new();
+    }
+    let mut ks: Vec<u64> = Vec::new();
+    if m <= n {
+        ks.extend(0..m);
+    } else {
+        let stride = m / n;
+        let off = case.seed % stride;
+        for j in 0..n {
+            ks.push(j * stride + off);
+        }
+    }
+    ks.into_iter()
+        .map(|k| {
+            let mut c = case.clone();
+            c.opts.stall_at = Some((g.step_idx, k));
+            c.meta.insert("wake_plan".into(), serde_json::json!([k, m]));
+            c
+        })
+        .collect()
 }
 
 pub fn tail(s: &str, n: usize) -> String {
